@@ -21,7 +21,7 @@ REQUIRED_THEOREMS = ["comparison_roundtrip", "condition_roundtrip", "linear_adju
                      "definition_roundtrip_main", "time_type_roundtrip", "mkStrEnc_ok", "readStrByteOrder_written",
                      "loadStrTail_written", "spec_fixed", "spec_dyn", "spec_lookup", "enum_entry_key", "enum_fold",
                      "time_type_roundtrip_num", "time_type_roundtrip_nonnum", "exStrEnum_wf", "exFltEnum_wf", "exBinTime_wf",
-                     "inRegime_sound", "inRegime_roundtrip"]
+                     "inRegime_sound", "inRegime_roundtrip", "enumKey_in_regime"]
 RULE = ("requests `cyclexml <prefix> <nsmap> <root> <tree>` (definitions loaded from independently written XML, with units, "
         "descriptions incl. empty ones, time types, every optional attribute at non-default values) and `cycleobj <ldef>` "
         "(definitions assembled from objects): write, load, write, load, write on both sides; the by-name serialisation of "
